@@ -354,6 +354,11 @@ func EncryptCPAonG1(s pairing.Suite, basePoint, public kyber.Point, ID, msg []by
 		// we're using blake2 as XOF which only outputs 2^16-1 length
 		return nil, errors.New("ciphertext too long")
 	}
+	// The pad derived from the pairing value is one hash output long:
+	// anything beyond it would be sent in the clear.
+	if len(msg) > s.Hash().Size() {
+		return nil, errors.New("plaintext too long for the hash function provided")
+	}
 	hashable, ok := s.G2().Point().(kyber.HashablePoint)
 	if !ok {
 		return nil, errors.New("point needs to implement hashablePoint")
@@ -389,6 +394,9 @@ func EncryptCPAonG1(s pairing.Suite, basePoint, public kyber.Point, ID, msg []by
 //     = V XOR H2(e(P, P)^(r*s*x))
 //     = V XOR H2(GidT) = M
 func DecryptCPAonG1(s pairing.Suite, private kyber.Point, c *CiphertextCPA) ([]byte, error) {
+	if len(c.C) > s.Hash().Size() {
+		return nil, errors.New("ciphertext too long for the hash function provided")
+	}
 	GidT := s.Pair(c.RP, private)
 	hGidT, err := gtToHash(s, GidT, len(c.C))
 
